@@ -25,7 +25,7 @@ RULE = ("one run = shaped GFA1 graph (match-only / '*' overlaps) + scheduled del
 PROBES = ["gfa2_graph", "mixed_sequences", "chain_ge3", "mixed_orientation_chain", "branching_junction", "cycle", 
           "hairpin_on_end", "two_chains_one_junction", "without_sequences", "merged_something", "merged_name_in_use",
           "nothing_to_merge", "after_mutation", "idempotent_checked", "star_overlap", "other_lines_present",
-          "twin_unnamed_edges"]
+          "twin_unnamed_edges", "member_of_unknown_length"]
 
 
 def oend(o, out=True):
@@ -99,7 +99,7 @@ def gen_shape(rng, k):
         elif has:
             lines.append("S\t%s\t%s" % (s, G.rand_seq(rng, n)))
         else:
-            lines.append("S\t%s\t*\tLN:i:%d" % (s, n) if (rng.random() < 0.6 or with_seq == "mixed") else "S\t%s\t*" % s)
+            lines.append("S\t%s\t*\tLN:i:%d" % (s, n) if rng.random() < (0.6 if with_seq is False else 0.8) else "S\t%s\t*" % s)
     for j, l in enumerate(ulinks):
         if version == "gfa1":
             lines.append("\t".join(["L"] + list(l)))
@@ -377,6 +377,11 @@ def run(scn, st):
                 return
             paths, cycles = pre.chains()
             before_obs = ob.text_lines(g)
+            # the caller has used the sequence utilities before, with other options (they keep nothing)
+            for q in sorted(set(pre.seq.values())):
+                if q != "*":
+                    core.call(gfapy.sequence.rc, q, rna=True)
+                    core.call(gfapy.sequence.rc, q, valid=True)
             o = core.call(g.merge_linear_paths)
             st.count("oracle.merge_post_state")
             if not o.ok:
@@ -496,6 +501,13 @@ def check_merge(g, pre, paths, cycles, st):
             if post.length[mname] != want_len:
                 raise core.Violation("merged-length-differs", "chain %r merged as %s: length %r, expected %d" %
                                      (names, mname, post.length[mname], want_len), what="length")
+        elif post.length[mname] is not None:
+            # a member of unknown length: the length of the chain is not known either
+            st.count("probe.member_of_unknown_length")
+            raise core.Violation("merged-length-differs", "chain %r (lengths %r) merged as %s: length %r given although "
+                                 "a member has none" % (names, lens, mname, post.length[mname]), what="length-unknown")
+        else:
+            st.count("probe.member_of_unknown_length")
         mapping[(walk[0][0], oend(walk[0][1], False))] = (mname, "L")
         mapping[(walk[-1][0], oend(walk[-1][1], True))] = (mname, "R")
         merged_names[mname] = names
